@@ -20,7 +20,7 @@ pub fn gen_prog(e: &mut Ent, cfg: &TypeCfg) -> (Prog, Scope) {
         4 | 5 => {
             // a named service definition
             let body = gen_service(e, &sc, 2, cfg);
-            let mut name = "Srv".to_string();
+            let mut name = if e.bool() { "Srv".to_string() } else { (*e.pick(cfg.def_names)).to_string() };
             while env.get(&name).is_some() {
                 name.push('_');
             }
